@@ -1,2 +1,131 @@
-(* C05 — placeholder while the harness is brought up *)
-From WK Require Import Base.Base Model.C05Case.
+(* C05 — An entry identity binds every field of its message.
+   Only statements, each closed by [exact] of a lemma from Proof/Identity*.v.
+   SHA-256 is an arbitrary function [H]; conclusions are "the fields are equal,
+   or here is a collision of H" (resp. "or H maps some pre-image to the all-zero
+   digest", which VerifyEntry treats as "no digest"). *)
+From WK Require Import Base.Base Base.Bytes Gen.Consts_C05 Model.Identity Model.Identity_sha256 Model.C05Case.
+From WK Require Import Proof.Identity Proof.Identity_seal.
+Open Scope N_scope.
+
+(* ---- the pre-image is injective in every semantic field ------------------------- *)
+
+(* field domains = the Go types: u64 fields below 2^64, Setting a byte, timestamp
+   an int64, CommandID / PreviousDigest 32 bytes, string/byte lengths below 2^64 *)
+Theorem c05_preimage_inj : forall e r e' r',
+  entry_in_domain e = true -> record_in_domain r = true ->
+  entry_in_domain e' = true -> record_in_domain r' = true ->
+  preimage e r = preimage e' r' ->
+  content_eq e r e' r'.
+  (* = index, authority (epoch, term, fence), command, predecessor (term, index,
+     digest), id, setting, sync-once, timestamp, sender, client number, payload equal *)
+Proof. exact preimage_inj. Qed.
+Print Assumptions c05_preimage_inj.
+
+(* changing any single semantic field (or several) changes the pre-image *)
+Theorem c05_single_field : forall e r e' r',
+  entry_in_domain e = true -> record_in_domain r = true ->
+  entry_in_domain e' = true -> record_in_domain r' = true ->
+  content_eqb e r e' r' = false -> preimage e r <> preimage e' r'.
+Proof. exact field_change_changes_preimage. Qed.
+Print Assumptions c05_single_field.
+
+(* ... and nothing else enters the digest *)
+Theorem c05_preimage_only_content : forall e r e' r',
+  content_eq e r e' r' -> preimage e r = preimage e' r'.
+Proof. exact content_eq_preimage. Qed.
+Print Assumptions c05_preimage_only_content.
+
+(* ---- the digest binds the content, up to collisions of H ---------------------------- *)
+
+Theorem c05_digest_binds : forall (H : bytes -> bytes) e r e' r',
+  entry_in_domain e = true -> record_in_domain r = true ->
+  entry_in_domain e' = true -> record_in_domain r' = true ->
+  digest_proposal_entry H e r = digest_proposal_entry H e' r' ->
+  content_eq e r e' r' \/ collision H.
+Proof. exact digest_binds. Qed.
+Print Assumptions c05_digest_binds.
+
+(* ---- verification accepts exactly the sealed content ---------------------------------- *)
+
+Theorem c05_verify_iff_sealed : forall (H : bytes -> bytes) e r,
+  verify_entry H e r = true <-> verify_guards e r = true /\ H (preimage e r) = e_digest e.
+Proof. exact verify_entry_iff. Qed.
+Print Assumptions c05_verify_iff_sealed.
+
+(* two accepted pairs under the same identity digest have the same content *)
+Theorem c05_verify_exact : forall (H : bytes -> bytes) e r e' r',
+  entry_in_domain e = true -> record_in_domain r = true ->
+  entry_in_domain e' = true -> record_in_domain r' = true ->
+  verify_entry H e r = true -> verify_entry H e' r' = true -> e_digest e = e_digest e' ->
+  content_eq e r e' r' \/ collision H.
+Proof. exact verify_exact. Qed.
+Print Assumptions c05_verify_exact.
+
+(* every entry SealProposalManifest derives verifies against the record it was derived from *)
+Theorem c05_sealed_entries_verify : forall (H : bytes -> bytes) m rs m' es,
+  seal_proposal_manifest H m rs = Some (m', es) ->
+  length es = length rs /\ (all_true (self_verify H es rs) \/ zero_image H).
+Proof. exact sealed_entries_verify. Qed.
+Print Assumptions c05_sealed_entries_verify.
+
+(* the sealed entries are the chain the manifest describes (authority, command,
+   contiguous indexes, each predecessor = the previous entry) and the sealed
+   manifest is the input with the tail's digest *)
+Theorem c05_sealed_chain : forall (H : bytes -> bytes) m rs m' es,
+  seal_proposal_manifest H m rs = Some (m', es) ->
+  chain_ok m (m_base m + 1) (m_prev_term m) (m_prev_index m) (m_prev_digest m) es = true
+  /\ m_digest m' = last_digest es /\ manifest_with_digest m' (m_digest m) = m.
+Proof. exact sealed_chain. Qed.
+Print Assumptions c05_sealed_chain.
+
+(* ---- the monitor evaluated on implementation traces is implied by the model ------------ *)
+
+Theorem c05_model_satisfies_monitor : forall (H : bytes -> bytes),
+  (forall p, length (H p) = 32%nat) ->
+  forall m rs prs,
+  manifest_in_domain m = true -> Forall (fun r => record_in_domain r = true) rs ->
+  Forall pair_in_domain prs ->
+  C05_monitor (model_case H m rs prs) = 0 \/ collision H \/ zero_image H.
+Proof. exact model_satisfies_monitor. Qed.
+Print Assumptions c05_model_satisfies_monitor.
+
+(* ---- non-vacuity ------------------------------------------------------------------------------ *)
+
+Definition ex_m : manifest :=
+  Manifest 1 3 5 7 (1 :: repeat 0 31) 0 2 0 0 zero32 zero32.
+Definition ex_rs : list record :=
+  [Rec 11 1 3 1 (hx "7531") (hx "6331") 1001 true (hx "6f6e65");
+   Rec 12 2 3 2 (hx "7532") (hx "6332") 1002 false (hx "74776f")].
+
+(* the fixture of pkg/quorumlog/proposal_test.go seals, verifies, and the monitor accepts it *)
+Example c05_example_seal :
+  match seal_proposal_manifest sha256 ex_m ex_rs with
+  | Some (m', es) => length es = 2%nat /\ self_verify sha256 es ex_rs = [true; true]
+                     /\ structurally_valid m' = true
+  | None => False
+  end
+  /\ C05_monitor (model_case sha256 ex_m ex_rs
+                    [(Entry 1 3 5 7 1 0 0 (1 :: repeat 0 31) zero32 zero32, nth 1 ex_rs (Rec 0 0 0 0 [] [] 0 false []))]) = 0.
+Proof. vm_compute. repeat split; reflexivity. Qed.
+
+(* each of the fifteen semantic fields, changed alone, changes the pre-image *)
+Example c05_example_each_field :
+  let e := Entry 1 3 5 7 1 0 0 (1 :: repeat 0 31) zero32 zero32 in
+  let r := Rec 11 1 3 1 (hx "7531") (hx "6331") 1001 true (hx "6f6e65") in
+  forallb (fun er => negb (bytes_eqb (preimage e r) (preimage (fst er) (snd er))))
+    [ (Entry 1 4 5 7 1 0 0 (1 :: repeat 0 31) zero32 zero32, r);
+      (Entry 1 3 6 7 1 0 0 (1 :: repeat 0 31) zero32 zero32, r);
+      (Entry 1 3 5 8 1 0 0 (1 :: repeat 0 31) zero32 zero32, r);
+      (Entry 1 3 5 7 2 0 0 (1 :: repeat 0 31) zero32 zero32, r);
+      (Entry 1 3 5 7 1 1 0 (1 :: repeat 0 31) zero32 zero32, r);
+      (Entry 1 3 5 7 1 0 1 (1 :: repeat 0 31) zero32 zero32, r);
+      (Entry 1 3 5 7 1 0 0 (2 :: repeat 0 31) zero32 zero32, r);
+      (Entry 1 3 5 7 1 0 0 (1 :: repeat 0 31) (repeat 0 31 ++ [1]) zero32, r);
+      (e, Rec 12 1 3 1 (hx "7531") (hx "6331") 1001 true (hx "6f6e65"));
+      (e, Rec 11 1 3 2 (hx "7531") (hx "6331") 1001 true (hx "6f6e65"));
+      (e, Rec 11 1 3 1 (hx "753163") (hx "31") 1001 true (hx "6f6e65"));
+      (e, Rec 11 1 3 1 (hx "7531") (hx "63316f") 1001 true (hx "6e65"));
+      (e, Rec 11 1 3 1 (hx "7531") (hx "6331") 1002 true (hx "6f6e65"));
+      (e, Rec 11 1 3 1 (hx "7531") (hx "6331") 1001 false (hx "6f6e65"));
+      (e, Rec 11 1 3 1 (hx "7531") (hx "6331") 1001 true (hx "6f6e66")) ] = true.
+Proof. vm_compute. reflexivity. Qed.
